@@ -11,7 +11,7 @@ W = 2 ** 18
 
 
 def gen(rng, tier):
-    kind = rng.choice(['hex', 'hex', 'str', 'unicode', 'hex8'])
+    kind = rng.choice(['hex', 'hex', 'str', 'unicode', 'hex8', 'dec8', 'hexcounter'])
     order = lambda: rng.choice(['asc', 'asc', 'desc', 'shuffle'])
     mode = rng.random()
     h = {'kind': kind, 'seed': rng.randrange(2 ** 31), 'ops': []}
@@ -96,6 +96,8 @@ def gen(rng, tier):
             if rng.random() < 0.1:
                 ops.append(['tick', rng.choice([0.5, 6.0, 3600.0])])
         h['shape'] = 'scaled'
+        if rng.random() < 0.15:
+            h['kind'] = 'long'             # values of several hundred characters (only affordable with scaled knobs)
     return h
 
 
